@@ -20,6 +20,8 @@
 package asm
 
 import (
+	"strings"
+
 	"github.com/llir/ll/ast"
 	"github.com/llir/llvm/ir"
 	"github.com/llir/llvm/ir/types"
@@ -188,5 +190,7 @@ func localIdentOfValue(v local) ir.LocalIdent {
 	if v.IsUnnamed() {
 		return ir.LocalIdent{LocalID: v.ID()}
 	}
-	return ir.LocalIdent{LocalName: v.Name()}
+	// Note: v.Name() returns the display form of the name (numeric names are
+	// quoted, e.g. "42"), not the name itself; decode the identifier instead.
+	return ir.LocalIdent{LocalName: unquote(strings.TrimPrefix(v.Ident(), "%"))}
 }
